@@ -78,8 +78,9 @@ def run(prop, tier):
         build = Build()
         emu = build.tool("san", "ovniemu")
         base = scratch.sub("t")
-        rank_cfgs = [[None, None], [[1, 0], [3, 2]], [[0, 1], None]] if tier == "quick" else \
-                    [[None, None], [[1, 0], [3, 2]], [[0, 1], None], [None, [0, 1]], [[2, 3], [0, 1]]]
+        # [[2, 0], [1, 3]]: the looms' rank ranges interleave and the first-enumerated process of a loom does not hold its minimum
+        rank_cfgs = [[None, None], [[1, 0], [3, 2]], [[0, 1], None], [[2, 0], [1, 3]]] if tier == "quick" else \
+                    [[None, None], [[0, 1], None], [None, [0, 1]]] + [[list(p[:2]), list(p[2:])] for p in itertools.permutations(range(4))]
         variants = []      # (cfg index, label, files)
         for ci, ranks in enumerate(rank_cfgs):
             spec = system(ranks)
@@ -230,7 +231,7 @@ def run(prop, tier):
         ctx.part("contradictions", cases=len(conf))
         ctx.sample({"variant": variants[5][1], "rank_config": rank_cfgs[variants[5][0]]})
         ctx.sample({"contradiction": conf[3][0]})
-        ctx.cov["rule"] = ("2 looms x 2 processes x 2 threads x 2 CPUs, 3/5 rank configurations (incl. ranked and unranked looms mixed, rank order opposite "
+        ctx.cov["rule"] = ("2 looms x 2 processes x 2 threads x 2 CPUs, 4/27 rank configurations (thorough: every assignment of the ranks 0-3; incl. ranked and unranked looms mixed, rank order opposite "
                            "to name order): every distribution of app_id and rank over the non-empty thread subsets of each process, every covering family "
                            "of CPU sub-lists in every array order, stream creation orders; outputs must be byte-identical to the canonical distribution and "
                            "rows equal the documented ordering. Every single contradiction at every stream, in both enumeration orders, must exit 1 with a message")
